@@ -60,17 +60,23 @@ def _forwarding(prog, blk):
     if not isinstance(g, Func) or g is blk or any(isinstance(a, ast.Starred) for a in c.args) or any(k.arg is None for k in c.keywords):
         return blk
     k = len(blk.params)
-    if len(c.args) < k or [norm(a) for a in c.args[:k]] != blk.params or g.vararg:
+    if g.vararg or len(c.args) < k:
+        return blk
+    texts = [norm(a) for a in c.args]
+    # the closure's own parameters appear once, in order, as one contiguous run of the positional arguments; what stands
+    # before them is bound like the leading arguments of functools.partial, what stands after them by parameter name
+    start = next((i for i in range(len(texts) - k + 1) if texts[i:i + k] == blk.params), None)
+    if start is None:
         return blk
     own = set(blk.params)
-    rest = c.args[k:]
-    if any(isinstance(x, ast.Name) and x.id in own for a in list(rest) + [kw_.value for kw_ in c.keywords] for x in ast.walk(a)):
+    lead, rest = c.args[:start], c.args[start + k:]
+    if any(isinstance(x, ast.Name) and x.id in own for a in list(lead) + list(rest) + [kw_.value for kw_ in c.keywords] for x in ast.walk(a)):
         return blk
-    if k + len(rest) > len(g.params):
+    if len(c.args) > len(g.params):
         return blk
-    kws = {g.params[k + i]: a for i, a in enumerate(rest)}
+    kws = {g.params[start + k + i]: a for i, a in enumerate(rest)}
     kws.update({kw_.arg: kw_.value for kw_ in c.keywords})
-    return Partial(g, [], kws, c)
+    return Partial(g, list(lead), kws, c)
 
 
 def sites_in(prog, f):
@@ -162,13 +168,18 @@ def expanded_sites(prog, f, depth=0):
                 blk_actual = sub(blk_expr)
                 if blk_actual is None:
                     continue
-                block = prog.resolve_callable(f, f.module, blk_actual)
+                block = _forwarding(prog, prog.resolve_callable(f, f.module, blk_actual))
             arrays = []
             for a in hs.arrays:
                 arrays.append(sub(a) if sub(a) is not None else a)
             kwargs = {}
             for k, v in hs.kwargs.items():
                 kwargs[k] = sub(v) if sub(v) is not None else v
+            if h.kwarg and any(k_.arg is None and isinstance(k_.value, ast.Name) and k_.value.id == h.kwarg for k_ in hs.call.keywords):
+                # the helper forwards its own **kwargs to map_overlap / map_blocks: the caller's extra keywords reach the block function
+                for k_ in n.keywords:
+                    if k_.arg and k_.arg not in h.params + h.kwonly:
+                        kwargs.setdefault(k_.arg, k_.value)
             ns = Site(hs.kind, n, f, block, arrays, kwargs)
             ns.via = h
             out.append(ns)
